@@ -20,7 +20,7 @@ LEVEL = "exploration"
 RULE = ("Enumerated completely on 16 processes in both tiers: every date 0001-01-01..9999-12-31 (3,652,059) - fields, membership start<=instant<=end at "
         "00:00 and 23:59:59.999999, the three constructors mutually inverse; every dekad 0001-01-d1..9999-12-d3 (359,964) - "
         "start day, ndays vs calendar.monthrange, abutting neighbours, month sums, comparison/hash/offset algebra for a fixed offset set. "
-        "Generated: intra-day datetimes, arbitrary offset pairs inside year 1..9999, comparisons with str/int/date operands, and the "
+        "Generated: intra-day datetimes, arbitrary offset pairs inside year 1..9999, histories of up to 30 operations (offsets, reconstruction via label / raw / start / end / any day of the dekad) tracked by an integer model, comparisons with str/int/date operands, and the "
         ".dekad accessor on generated datetime64 arrays against the scalar class element-wise. Non-trivial: every case (the suite "
         "asserts ~60 hand-picked facts); distinct by date / dekad number.")
 ASSUME = ["python calendar/datetime as the calendar model"]
@@ -162,7 +162,37 @@ def sub_accessor(case):
         req(k.raw == m["raw"], "Dekad(%r).raw" % t, "dekad fields")
 
 
-SUBS = {"day": sub_day, "dekad": sub_dekad, "instant": sub_instant, "offsets": sub_offsets, "accessor": sub_accessor}
+def sub_history(case):
+    """A history of operations on one dekad (offsets, reconstructions through label / raw / start_date) tracked by an integer model."""
+    raw = int(case["start"])
+    k = Dekad(raw)
+    for op, arg in case["ops"]:
+        if op in ("add", "radd", "sub"):
+            n = int(arg)
+            r2 = raw + n if op != "sub" else raw - n
+            if not (RAW_MIN <= r2 <= RAW_MAX):
+                continue
+            k2 = k + n if op == "add" else (n + k if op == "radd" else k - n)
+            req((k2 - k) == (r2 - raw) and (k - k2) == (raw - r2), "history: (%s %s %d) - before = %d, model %d" % (k, op, n, k2 - k, r2 - raw), "dekad offset algebra")
+            req((k2 > k) == (r2 > raw) and (k2 == k) == (r2 == raw) and (k2 <= k) == (r2 <= raw), "history: order after %s %d from %s" % (op, n, k), "dekad order")
+            k, raw = k2, r2
+        elif op == "via_label":
+            k = Dekad(str(k))
+        elif op == "via_raw":
+            k = Dekad(k.raw)
+        elif op == "via_start":
+            k = Dekad(k.start_date)
+        elif op == "via_end" and raw < RAW_MAX:
+            k = Dekad(k.end_date)
+        elif op == "via_date":
+            k = Dekad(k.start_date.date() + dt.timedelta(days=int(arg) % k.ndays if raw < RAW_MAX else 0))
+        req(k.raw == raw and hash(k) == hash(Dekad(raw)) and k == Dekad(raw), "history: after %s the dekad is %s (raw %d), integer model %d" % (op, k, k.raw, raw),
+            "dekad history diverges from integer model")
+    year, rem = divmod(raw, 36)
+    req((k.year, k.month, k.idx) == (year, rem // 3 + 1, rem % 3 + 1), "history: final fields of %s" % k, "dekad fields")
+
+
+SUBS = {"history": sub_history, "day": sub_day, "dekad": sub_dekad, "instant": sub_instant, "offsets": sub_offsets, "accessor": sub_accessor}
 
 
 def _worker(years):
@@ -235,6 +265,15 @@ def run(ctx):
     raws = st.one_of(st.integers(RAW_MIN, RAW_MAX), st.sampled_from([RAW_MIN, RAW_MAX, RAW_MIN + 1, RAW_MAX - 1, 36 * 2000, 36 * 2000 + 35]))
     near = raws.flatmap(lambda a: st.builds(lambda d: {"a": a, "b": max(RAW_MIN, min(RAW_MAX, a + d))}, st.integers(-40, 40)))
     ctx.given("offsets", st.one_of(st.builds(lambda a, b: {"a": a, "b": b}, raws, raws), near), ctx.n(3000, 60000), fn=f_o)
+
+    def f_h(case):
+        rec.case("history", case, nontrivial=len(case["ops"]) >= 2, cls="ops=%d" % min(len(case["ops"]), 10))
+        sub_history(case)
+
+    opst = st.one_of(st.tuples(st.sampled_from(["add", "radd", "sub"]), st.one_of(st.integers(-80, 80), st.integers(-400000, 400000))),
+                     st.tuples(st.sampled_from(["via_label", "via_raw", "via_start", "via_end", "via_date"]), st.integers(0, 11)))
+    hist = st.builds(lambda a, ops: {"start": a, "ops": [list(o) for o in ops]}, raws, st.lists(opst, min_size=1, max_size=30))
+    ctx.given("history", hist, ctx.n(1500, 30000), fn=f_h)
 
     def f_a(case):
         rec.case("accessor", case, nontrivial=True, cls="n=%d" % min(len(case["times"]), 5))
